@@ -78,4 +78,11 @@ theorem C10_cache_sites :
 /-- non-vacuity: a well-formed bigram table whose level 1 is `ab, aaa` -/
 example : exT.WF 1 ∧ exT.enumLevel 1 10 = some [['a', 'b'], ['a', 'a', 'a']] := ⟨exT_wf, by decide⟩
 
+
+/-- the memo table is one per grammar object: the only place that constructs an `Optimizer` is the body of a constructor
+(a fresh table each time an object is built) — never a default argument or a module-level value, which would be one table for
+every ruleset loaded in the process and break the hypothesis of `C10_cache_independent` (entries true *for this model*) -/
+theorem C10_memo_table_per_object :
+    Generated.OmenFacts.optimizerSites = [("pcfg_grammar.py", "body", "__init__")] := by decide
+
 end Pcfg.C10
